@@ -139,3 +139,31 @@ CONTRACTS.append(Contract(
     ghost={'externals': {'func': {'result': 'any', 'raises_any': True}}},
     serves=["C16"],
     notes="the wrapped function is an external event; `*args` is one opaque value (the registry key)"))
+
+
+# ---------------------------------------------------------------------------------------
+# zpt/loader.TemplateLoader.load (C16, C02): the format selects the template class, and the class
+# is part of what is remembered -- the same file asked for as text and as xml are two templates.
+# The base loader's cache is keyed by the POSITIONAL arguments only (contract cache.load), so the
+# class has to be passed positionally.
+# ---------------------------------------------------------------------------------------
+ZL = "zpt/loader.py::TemplateLoader"
+REC_FIELDS[ZL] = {"formats": "map[str,any]", "default_format": "str"}
+FMT = "(format if (format is not None and format != '') else self.default_format)"
+CONTRACTS.append(Contract(
+    ZL + ".load", params={"self": "rec[%s]" % ZL, "filename": "str", "format": "opt[str]"},
+    defaults={"format": None},
+    ensures=[
+        "ext_index('base_load') == 0 and ext_index('base_load', 1) == -1",
+        "ext_call_arg('base_load', 0, 0) == filename",
+        "%s in self.formats and ext_call_arg('base_load', 0, 1) is self.formats[%s]" % (FMT, FMT),
+        # both the name and the class take part in the cache key of the base loader
+        "ext_call_nkwargs('base_load', 0) == 0",
+        "result is ext_call_result('base_load', 0)",
+    ],
+    raises={'KeyError': {'when': "%s not in self.formats" % FMT, 'ensures': ["ext_index('base_load') == -1"]},
+            '*': {'ensures': ["ext_raised_in('base_load')"]}},
+    result="any",
+    ghost={'externals': {'super().load': {'result': 'any', 'raises_any': True, 'as': 'base_load'}}},
+    serves=["C16", "C02"],
+    notes="the base class's (cached) load is an event of the ghost trace"))
